@@ -6,66 +6,73 @@
 //@function src/engine/core/column/reader/view.rs::align_up
 //@function src/engine/core/column/reader/decoders.rs::build_values
 //@function src/engine/core/column/reader/decoders.rs::decoder_for
-//@harness name=decode_numeric_block kind=bounded bound="2 rows; i64 / u64 / f64 blocks laid out as ColumnGroupBuilder::finish writes them (header, optional null bitmap, pad to 8, payload)" tier=quick timeout=900 stubs=yes
-//@harness name=decode_bool_block kind=bounded bound="2 rows" tier=quick timeout=900 stubs=yes
-//@harness name=decode_varbytes_block kind=bounded bound="2 rows of 0..=2 bytes each" tier=quick timeout=900 stubs=yes
+//@harness name=decode_i64_block kind=bounded bound="2 rows; block laid out as ColumnGroupBuilder::finish writes it (header, null bitmap or pad, payload)" tier=thorough timeout=1800 stubs=yes gate=yes
+//@harness name=decode_u64_block kind=bounded bound="2 rows; block laid out as ColumnGroupBuilder::finish writes it (header, null bitmap or pad, payload)" tier=manual timeout=1800 stubs=yes gate=yes
+//@harness name=decode_f64_block kind=bounded bound="2 rows; block laid out as ColumnGroupBuilder::finish writes it (header, null bitmap or pad, payload)" tier=manual timeout=1800 stubs=yes gate=yes
+//@harness name=decode_bool_block kind=bounded bound="2 rows" tier=manual timeout=1800 stubs=yes gate=yes
+//@harness name=decode_varbytes_block kind=bounded bound="2 rows of 0..=2 bytes each" tier=thorough timeout=1800 stubs=yes gate=yes
 //@obligation C07.block_decode.numeric_rows_come_back : parse -> decoder_for(tag) -> typed getters return every stored i64 / u64 / f64 of a block in the writer's layout bit for bit, nulls as None [bounded; the writer half (HashMap-keyed) is transcribed, not executed]
 //@obligation C07.block_decode.bool_rows_come_back : same for a bool block (value bitset in the payload, null bitset in aux)
 //@obligation C07.block_decode.string_rows_come_back : same for a VarBytes block: each row's bytes come back unchanged, including empty strings
 
     fn fmt_stub(_args: std::fmt::Arguments<'_>) -> String { String::new() }
 
-    /// the layout written by ColumnGroupBuilder::finish for a fixed-width numeric column of 2 rows
+    /// the layout written by ColumnGroupBuilder::finish for a fixed-width numeric column of 2 rows: for 2 rows the
+    /// aux section is 4 bytes in both cases ([bitmap, 0, 0, 0] with nulls, 4 pad bytes without), so every offset is
+    /// concrete and only the flag bit, the bitmap byte and the 16 payload bytes are symbolic
     fn numeric_block(phys: PhysicalType, nulls: u8, r0: [u8; 8], r1: [u8; 8]) -> Vec<u8> {
         let any_nulls = nulls & 0b11 != 0;
-        let mut aux_len = if any_nulls { 1usize } else { 0 };
-        let pad = (8 - ((ColumnBlockHeader::LEN + aux_len) % 8)) % 8;
-        aux_len += pad;
-        let mut buf = Vec::new();
-        ColumnBlockHeader::new(phys, any_nulls, 2, aux_len as u32).write_to(&mut buf);
-        if any_nulls { buf.push(nulls & 0b11); }
-        let mut k = 0;
-        while k < pad { buf.push(0); k += 1; }
+        let mut buf = Vec::with_capacity(32);
+        ColumnBlockHeader::new(phys, any_nulls, 2, 4).write_to(&mut buf);
+        buf.push(if any_nulls { nulls & 0b11 } else { 0 });
+        buf.push(0); buf.push(0); buf.push(0);
         buf.extend_from_slice(&r0);
         buf.extend_from_slice(&r1);
         buf
     }
 
     fn decode(bytes: Vec<u8>) -> Option<std::mem::ManuallyDrop<ColumnValues>> {
+        // the view borrows a plain copy of the bytes (same content as the Arc'd block the values will read from)
+        let copy = std::mem::ManuallyDrop::new(bytes.clone());
         let block = Arc::new(DecompressedBlock::from_bytes(bytes));
-        let view = match ColumnBlockView::parse(&block.bytes[..]) { Ok(v) => v, Err(_) => return None };
-        let r = decoder_for(view.phys).build_values(&view, 2, block.clone());
+        let view = match ColumnBlockView::parse(&copy[..]) { Ok(v) => v, Err(_) => return None };
+        // the static decoder table (decoder_for) is replaced by a direct match on the parsed tag: same decoders, no `dyn`
+        let r = match view.phys {
+            PhysicalType::I64 => I64Decoder.build_values(&view, 2, block.clone()),
+            PhysicalType::U64 => U64Decoder.build_values(&view, 2, block.clone()),
+            PhysicalType::F64 => F64Decoder.build_values(&view, 2, block.clone()),
+            PhysicalType::Bool => BoolDecoder.build_values(&view, 2, block.clone()),
+            _ => VarBytesDecoder.build_values(&view, 2, block.clone()),
+        };
         std::mem::forget(block);
         match r { Ok(v) => Some(std::mem::ManuallyDrop::new(v)), Err(_) => None }
     }
 
-    #[kani::proof]
-    #[kani::stub(alloc::fmt::format, fmt_stub)]
-    #[kani::unwind(12)]
-    fn decode_numeric_block() {
-        let nulls: u8 = kani::any();
-        let (a, b): (u64, u64) = (kani::any(), kani::any());
-        let n0 = nulls & 1 != 0;
-        let n1 = nulls & 2 != 0;
-        // the writer stores 0 in the payload of a null row
-        let (pa, pb) = (if n0 { 0 } else { a }, if n1 { 0 } else { b });
-        let vi = decode(numeric_block(PhysicalType::I64, nulls, pa.to_le_bytes(), pb.to_le_bytes()));
-        let vu = decode(numeric_block(PhysicalType::U64, nulls, pa.to_le_bytes(), pb.to_le_bytes()));
-        let vf = decode(numeric_block(PhysicalType::F64, nulls, pa.to_le_bytes(), pb.to_le_bytes()));
-        kani::cover!(n0 && !n1, "COVER:first_row_null");
-        kani::cover!(!n0 && !n1, "COVER:no_nulls");
-        let ok = match (&vi, &vu, &vf) {
-            (Some(vi), Some(vu), Some(vf)) => {
-                vi.len() == 2 && vu.len() == 2 && vf.len() == 2
-                && vi.get_i64_at(0) == if n0 { None } else { Some(a as i64) } && vi.get_i64_at(1) == if n1 { None } else { Some(b as i64) }
-                && vu.get_u64_at(0) == if n0 { None } else { Some(a) } && vu.get_u64_at(1) == if n1 { None } else { Some(b) }
-                && vf.get_f64_at(0).map(|f| f.to_bits()) == if n0 { None } else { Some(a) }
-                && vf.get_f64_at(1).map(|f| f.to_bits()) == if n1 { None } else { Some(b) }
-            }
-            _ => false,
-        };
-        assert!(ok, "OBL:C07.block_decode.numeric_rows_come_back");
-    }
+    macro_rules! numeric_harness { ($name:ident, $phys:expr, $get:expr) => {
+        #[kani::proof]
+        #[kani::stub(alloc::fmt::format, fmt_stub)]
+        #[kani::unwind(12)]
+        fn $name() {
+            let nulls: u8 = kani::any();
+            let (a, b): (u64, u64) = (kani::any(), kani::any());
+            let n0 = nulls & 1 != 0;
+            let n1 = nulls & 2 != 0;
+            // the writer stores 0 in the payload of a null row
+            let (pa, pb) = (if n0 { 0 } else { a }, if n1 { 0 } else { b });
+            let v = decode(numeric_block($phys, nulls, pa.to_le_bytes(), pb.to_le_bytes()));
+            kani::cover!(n0 && !n1, "COVER:first_row_null");
+            kani::cover!(!n0 && !n1, "COVER:no_nulls");
+            let get: fn(&ColumnValues, usize) -> Option<u64> = $get;
+            let ok = match &v {
+                Some(v) => v.len() == 2 && get(v, 0) == if n0 { None } else { Some(a) } && get(v, 1) == if n1 { None } else { Some(b) },
+                None => false,
+            };
+            assert!(ok, "OBL:C07.block_decode.numeric_rows_come_back");
+        }
+    }; }
+    numeric_harness!(decode_i64_block, PhysicalType::I64, |v, i| v.get_i64_at(i).map(|x| x as u64));
+    numeric_harness!(decode_u64_block, PhysicalType::U64, |v, i| v.get_u64_at(i));
+    numeric_harness!(decode_f64_block, PhysicalType::F64, |v, i| v.get_f64_at(i).map(|x| x.to_bits()));
 
     #[kani::proof]
     #[kani::stub(alloc::fmt::format, fmt_stub)]
